@@ -746,6 +746,115 @@ Proof.
   destruct (dis_of_good (r_bps (s_reg s)) (r_next (s_reg s)) (wf_nodup _ _ _ (pr_wf _ _ _ _ _ P)) G) as [D V]. auto.
 Qed.
 
+
+(* ---------- whole histories: run / break / break remove / continue / restart, any number of times ---------- *)
+(* H_boundary for a `break <addr>` *)
+Definition GoodA' (a : N) : Prop :=
+  mapped code a = true /\ has_place a = true /\ readable code a /\ a <> entry /\ a <> rbrk /\ off <= a.
+
+Inductive Life : bst -> Prop :=
+| Life_init : Life (init_launched code tr entry off)
+| Life_add_idle : forall s a, Life s -> s_status s <> InProgress -> GoodA' a ->
+    ~ In a (map ka (r_dis (s_reg s))) -> Life (fst (add_at_addr code has_place s a))
+| Life_add_run : forall s a, Life s -> s_status s = InProgress -> GoodA' a ->
+    Life (fst (add_at_addr code has_place s a))
+| Life_remove : forall s a, Life s -> s_status s = InProgress -> a <> entry ->
+    Life (let x := remove_by_addr (Reloc a) (s_reg s) (s_proc s) in with_rp s (fst (fst x)) (snd (fst x)))
+| Life_continue : forall s x, Life s -> continue_execution s = Ok x -> Life (fst x)
+| Life_restart : forall s x, Life s -> s_status s <> Unload -> restart_debugee s = Ok x -> Life (fst x).
+
+Inductive LifeInv (s : bst) : Prop :=
+| LI_idle : s_status s = Unload -> Dormant (s_reg s) -> s_external s = false -> s_fate s = FTraced -> LifeInv s
+| LI_prompt : forall i m, Prompt s i m -> r_dis (s_reg s) = [] -> GoodReg (r_bps (s_reg s)) -> LifeInv s
+| LI_exited : s_status s = Exited -> ExitedOK s -> Dormant (s_reg s) -> LifeInv s.
+
+Lemma dormant_add : forall r a n, Dormant r -> GoodA' a -> ~ In a (map ka (r_dis r)) ->
+  Dormant (mk_reg (r_bps r) (add_uninit (mk_ubp (Reloc a) n TUser false) (r_dis r)) (n + 1)).
+Proof.
+  intros r a n [Hb He Ho HN] (Hm & Hp & Hr & Hne & Hnb & Hof) Hnin.
+  assert (Hd: del_dis (Reloc a) (r_dis r) = r_dis r).
+  { apply del_dis_notin. intro H. apply Hnin. apply in_map_iff in H. destruct H as (u & Ek & Hu).
+    apply in_map_iff. exists u. split; [|exact Hu]. unfold ka. now rewrite Ek. }
+  unfold add_uninit. cbn [u_key]. rewrite Hd. constructor; cbn [r_bps r_dis].
+  - exact Hb.
+  - now right.
+  - intros u [<-|Hu]; [|now apply Ho]. right. unfold GoodUX, ka. cbn [u_ty u_key u_num key_addr].
+    split; [reflexivity|]. split; [|auto]. unfold try_into_brkpt. cbn [u_key u_ty u_place u_num]. rewrite Hm. cbn [bind orb].
+    now rewrite Hp.
+  - cbn [map]. constructor; [exact Hnin|exact HN].
+Qed.
+
+Lemma goodreg_ins : forall bps a n c, GoodReg bps -> GoodA' a ->
+  GoodReg (ins_bp (mk_bp a n c true TUser) bps).
+Proof.
+  intros bps a n c [(b & Hb & Ht & Ha) Geo Gt Gu] (Hm & Hp & Hr & Hne & Hnb & Hof). constructor.
+  - exists b. split; [|auto]. right. apply in_delbp. split; [exact Hb|]. cbn [b_addr]. congruence.
+  - intros c0 [<-|Hc]; [discriminate|]. apply in_delbp in Hc. apply Geo. tauto.
+  - intros c0 [<-|Hc]; [cbn; auto|]. apply in_delbp in Hc. apply Gt. tauto.
+  - intros c0 [<-|Hc] Hty; [cbn [b_addr]; auto|]. apply in_delbp in Hc. apply Gu; tauto.
+Qed.
+
+Lemma goodreg_del : forall bps a, GoodReg bps -> a <> entry -> GoodReg (del_bp a bps).
+Proof.
+  intros bps a [(b & Hb & Ht & Ha) Geo Gt Gu] Hne. constructor.
+  - exists b. split; [|auto]. apply in_delbp. split; [exact Hb|congruence].
+  - intros c Hc. apply in_delbp in Hc. apply Geo. tauto.
+  - intros c Hc. apply in_delbp in Hc. apply Gt. tauto.
+  - intros c Hc. apply in_delbp in Hc. apply Gu. tauto.
+Qed.
+
+Lemma post_life : forall V U x y, RestartPost V U x -> x = Ok y -> LifeInv (fst y).
+Proof.
+  intros V U x y R E. unfold RestartPost in R. cbn zeta in R.
+  assert (Hexit: (exists s' r, x = Ok (s', r) /\ exit_seen r /\ ExitedOK s' /\ Dormant (s_reg s') /\
+                    (forall v, In v (pendv (s_reg s')) <-> In v V)) -> LifeInv (fst y)).
+  { intros (s' & r & E' & _ & Hok & D & _). rewrite E in E'. inversion E'; subst. cbn [fst].
+    apply LI_exited; [apply Hok|exact Hok|exact D]. }
+  destruct (next_hit tr [entry] 0) as [e|]; [|auto].
+  destruct (next_hit tr U (S e)) as [j|]; [|auto].
+  destruct R as (m' & b & s' & E' & P & Hd & G & _). rewrite E in E'. inversion E'; subst.
+  cbn [fst]. eapply LI_prompt; eauto.
+Qed.
+
+(* every state such a history reaches satisfies the hypotheses of restart_at_prompt /
+   restart_after_exit / first_run / exit_keeps_views (and of the C01 / C02 theorems at prompts) *)
+Theorem life_inv : no_stutter tr -> (0 < length tr)%nat -> forall s, Life s -> LifeInv s.
+Proof.
+  intros NS Hlen s L. induction L as [|s a L IH Hst G Hnin|s a L IH Hst G|s a L IH Hst Hne|s x L IH E|s x L IH Hst E].
+  - apply LI_idle; try reflexivity. constructor; cbn [init_launched s_reg r_bps r_dis]; [reflexivity|now left| |].
+    + intros u [<-|[]]. now left.
+    + cbn [map]. constructor; [intros []|constructor].
+  - unfold add_at_addr. destruct IH as [Hs D Hx Hf|i m P _ _|Hs Hok D].
+    + rewrite Hs. cbn [fst]. apply LI_idle; cbn [with_rp s_status s_reg s_external s_fate]; auto.
+      now apply dormant_add.
+    + exfalso. apply Hst. apply P.
+    + rewrite Hs. cbn [fst]. apply LI_exited; cbn [with_rp s_status s_reg]; auto.
+      now apply dormant_add.
+  - destruct IH as [Hs _ _ _|i m P Hd Gr|Hs _ _]; try congruence.
+    destruct G as (Hm & Hp & Hr & G').
+    destruct (rd_some a Hr) as [c Hc].
+    destruct (add_prompt code tr off has_place s i m a c P Hm Hp Hr Hc) as (s' & m' & E & P' & Hb' & _ & Hd').
+    rewrite E. cbn [fst].
+    eapply LI_prompt; [exact P'|congruence|].
+    rewrite Hb'. apply goodreg_ins; [exact Gr|unfold GoodA'; tauto].
+  - destruct IH as [Hs _ _ _|i m P Hd Gr|Hs _ _]; try congruence.
+    destruct (remove_prompt code tr off has_place s i m a P Hd) as (m' & v & _ & P' & Hb' & Hd' & _).
+    cbn zeta. eapply LI_prompt; [exact P'| |]; cbn [with_rp s_reg]; auto.
+    rewrite Hb'. now apply goodreg_del.
+  - destruct IH as [Hs D Hx Hf|i m P Hd Gr|Hs _ _].
+    + eapply post_life; [apply (first_run NS Hlen s Hs D Hx Hf)|exact E].
+    + pose proof (C01_continue code tr rbrk off has_place exit_code H_no_int3 H_mapped NS s i m P) as C. cbn zeta in C.
+      destruct (next_hit tr (uaddrs (r_bps (s_reg s))) (S i)) as [j|] eqn:En.
+      * destruct C as (m' & b & s' & E' & _ & _ & Hb' & P' & _ & Hd'). rewrite E in E'. inversion E'; subst. cbn [fst].
+        eapply LI_prompt; [exact P'|congruence|rewrite Hb'; exact Gr].
+      * destruct (exit_keeps_views NS s i m P Hd Gr En) as (s' & r & E' & _ & Hok & D & _).
+        rewrite E in E'. inversion E'; subst. cbn [fst]. apply LI_exited; [apply Hok|exact Hok|exact D].
+    + unfold BpMachine.continue_execution in E. rewrite Hs in E. discriminate.
+  - destruct IH as [Hs _ _ _|i m P Hd Gr|Hs _ D]; [congruence| |].
+    + eapply post_life; [apply (restart_at_prompt NS Hlen s i m P Hd Gr)|exact E].
+    + eapply post_life; [apply (restart_after_exit NS Hlen s Hs D)|exact E].
+Qed.
+
 End Restart.
 
 (* ====================================================================================== *)
@@ -974,16 +1083,16 @@ Proof.
     unfold hw_disable in E. destruct (w_reg x); [|discriminate]. cbn [bind] in E.
     destruct (w_companion x) as [b|].
     + match type of E with context [decrease_rc ?a ?b ?c] => destruct (decrease_rc_shape a b c) as [cs Hs]; rewrite Hs in E end.
-      inversion E; subst. cbn [with_wps wps sync_all]. apply Forall_app. split; [now apply Forall_firstn|now apply Forall_skipn].
-    + inversion E; subst. cbn [with_wps wps sync_all]. apply Forall_app. split; [now apply Forall_firstn|now apply Forall_skipn].
+      inversion E; subst. cbn [with_wps wps sync_all]. apply Forall_app. split; [exact (Forall_firstn _ (wps w) i A)|exact (Forall_skipn _ (wps w) (S i) A)].
+    + inversion E; subst. cbn [with_wps wps sync_all]. apply Forall_app. split; [exact (Forall_firstn _ (wps w) i A)|exact (Forall_skipn _ (wps w) (S i) A)].
   - unfold Wp.remove_by_addr. destruct (position _ (wps w)) as [i|]; [|exact A].
     destruct (remove_at w i) as [s'| | |] eqn:E; cbn [fst]; try exact A.
     unfold remove_at in E. destruct (nth_error (wps w) i) as [x|]; [|discriminate].
     unfold hw_disable in E. destruct (w_reg x); [|discriminate]. cbn [bind] in E.
     destruct (w_companion x) as [b|].
     + match type of E with context [decrease_rc ?a ?b ?c] => destruct (decrease_rc_shape a b c) as [cs Hs]; rewrite Hs in E end.
-      inversion E; subst. cbn [with_wps wps sync_all]. apply Forall_app. split; [now apply Forall_firstn|now apply Forall_skipn].
-    + inversion E; subst. cbn [with_wps wps sync_all]. apply Forall_app. split; [now apply Forall_firstn|now apply Forall_skipn].
+      inversion E; subst. cbn [with_wps wps sync_all]. apply Forall_app. split; [exact (Forall_firstn _ (wps w) i A)|exact (Forall_skipn _ (wps w) (S i) A)].
+    + inversion E; subst. cbn [with_wps wps sync_all]. apply Forall_app. split; [exact (Forall_firstn _ (wps w) i A)|exact (Forall_skipn _ (wps w) (S i) A)].
   - exact A.
   - unfold exit_thread. destruct (threads w); exact A.
 Qed.
@@ -1027,9 +1136,8 @@ Qed.
 Lemma disable_all_alive : forall l dis p, p_alive (snd (disable_all_from off l dis p)) = p_alive p.
 Proof.
   induction l as [|b t IH]; intros dis p; [reflexivity|]. cbn [disable_all_from]. rewrite IH.
-  unfold bp_disable, peek, poke, bind. destruct (p_alive p) eqn:Ea; [|reflexivity].
-  destruct (read_bytes (p_mem p) (b_addr b) word_offsets) as [[|lo hi]|]; try reflexivity; cbn [fst]; try exact Ea.
-  rewrite Ea. reflexivity.
+  unfold bp_disable, peek, poke, bind. destruct (p_alive p) eqn:Ea; [|exact Ea].
+  destruct (read_bytes (p_mem p) (b_addr b) word_offsets) as [[|lo hi]|]; cbn [fst set_mem p_alive]; exact Ea.
 Qed.
 
 (* C11_external_survives, Detach *)
@@ -1108,3 +1216,85 @@ Proof.
   exists (Wp.mk_st [(5, hw_zero)] [mk_wp 1 4096 SIZE_Bytes8 COND_DataWrites None None] None 2 1 []).
   vm_compute. reflexivity.
 Qed.
+
+(* ====================================================================================== *)
+(* decidable forms of the hypotheses, witnesses, non-vacuity                                *)
+(* ====================================================================================== *)
+Definition readableb (code : mem) (a : N) : bool :=
+  forallb (fun o => match code (a + o) with Some _ => true | None => false end) word_offsets.
+Lemma readableb_sound : forall code a, readableb code a = true -> readable code a.
+Proof.
+  intros code a H o Ho. unfold readableb in H. rewrite forallb_forall in H. specialize (H o Ho).
+  destruct (code (a + o)); [discriminate|discriminate H].
+Qed.
+
+(* H_boundary for `break <addr>` in the histories of [Life] *)
+Definition good_ab (code : mem) (rbrk off : N) (has_place : N -> bool) (entry a : N) : bool :=
+  mapped code a && has_place a && readableb code a && negb (a =? entry) && negb (a =? rbrk) && (off <=? a).
+Lemma good_ab_sound : forall code rbrk off has_place entry a,
+  good_ab code rbrk off has_place entry a = true -> GoodA' code rbrk off has_place entry a.
+Proof.
+  intros code rbrk off has_place entry a H. unfold good_ab in H.
+  apply andb_true_iff in H. destruct H as [H H6]. apply andb_true_iff in H. destruct H as [H H5].
+  apply andb_true_iff in H. destruct H as [H H4]. apply andb_true_iff in H. destruct H as [H H3].
+  apply andb_true_iff in H. destruct H as [H1 H2].
+  apply negb_true_iff, N.eqb_neq in H4. apply negb_true_iff, N.eqb_neq in H5. apply N.leb_le in H6.
+  unfold GoodA'. repeat split; auto using readableb_sound.
+Qed.
+
+(* the restart theorems apply to the witness machine of BpMachineProofs (entry 10, r_brk 99, bias 0):
+   the hypotheses hold for its trace and for `break 20`, `break 30`, and the model computes what
+   restart_at_prompt predicts: the same pairs, the first hit after the entry point *)
+Example restart_hypotheses_nonvacuous :
+  trace_okb nop tr_w = true /\ no_stutterb tr_w = true /\ entry_onceb 10 tr_w = true /\
+  readableb nop 10 = true /\ readableb nop 99 = true /\
+  good_ab nop 99 0 (fun _ => true) 10 20 = true /\ good_ab nop 99 0 (fun _ => true) 10 30 = true /\
+  (let s := fst (BpMachineProofs.wrun tr_w [Add 20; Add 30; Continue; Continue]) in
+   uviews (r_bps (s_reg s)) = [(2, 30); (1, 20)] /\ p_pc (s_proc s) = 30) /\
+  (let x := BpMachineProofs.wrun tr_w [Add 20; Add 30; Continue; Continue; Restart] in
+   uviews (r_bps (s_reg (fst x))) = [(1, 20); (2, 30)] /\ p_pc (s_proc (fst x)) = 20 /\
+   last_error (snd x) = Some (OStop (StopBp 20 1)) /\ next_hit tr_w [30; 20] 1 = Some 1%nat).
+Proof. vm_compute. auto 20. Qed.
+
+(* restart after the exit: the pairs survive as pending breakpoints and hit again *)
+Example restart_after_exit_example :
+  let x := BpMachineProofs.wrun tr_w [Add 30; Continue; Continue; Continue; Continue; Restart; Continue] in
+  exit_codes (snd x) = [7%Z] /\ only_stops (snd x) = [StopBp 30 1; StopBp 30 1; StopExit 7; StopBp 30 1; StopBp 30 1].
+Proof. vm_compute. auto. Qed.
+
+(* C11_restart_keeps_refuted: `break remove <entry address>` (or `break remove 0` twice) takes the
+   debugger's own entry-point breakpoint out; from then on no restart ever arms the user's
+   breakpoints again: the program runs to its end, the breakpoint stays listed and never hits *)
+Theorem restart_entry_removed_refuted : exists tr ops,
+  let x := BpMachineProofs.wrun tr ops in
+  only_stops (snd x) = [StopBp 30 1; StopExit 7; StopExit 7] /\ snapshot (s_reg (fst x)) = [(1, Glob 30)] /\
+  only_stops (wspec tr ops) = [StopBp 30 1; StopBp 30 1; StopBp 30 1].
+Proof. exists tr_w, [Add 30; Continue; RemoveAddr 10; Restart; Restart]. vm_compute. auto. Qed.
+
+(* a `break` at the place of a breakpoint that survived an exit is listed twice; the restart keeps one
+   of the two numbers only (which one: HashMap order in the code, list order in the model) *)
+Theorem restart_double_listing_refuted : exists tr ops,
+  snapshot (s_reg (fst (BpMachineProofs.wrun tr ops))) = [(1, Glob 50); (2, Reloc 50)] /\
+  snapshot (s_reg (fst (BpMachineProofs.wrun tr (ops ++ [Restart])))) = [(1, Reloc 50)].
+Proof. exists [10; 20; 50; 60], [Add 50; Continue; Continue; Add 50]. vm_compute. auto. Qed.
+
+(* detach / drop of an attached process with watchpoints in two threads: released, quiet *)
+Example external_survives_example :
+  let w := Wp.wrun [WAddAddr 4096 SIZE_Bytes8 COND_DataWrites; WNewThread 7; WAddAddr 4104 SIZE_Bytes4 COND_DataReadsWrites]
+                   (wst_attached [5; 6]) in
+  let s := init_attached nop tr_w 10 0 3 in
+  armedb w = true /\ map (fun th => dr7_quiet (h_dr7 (snd th))) (threads w) = [false; false; false] /\
+  match detach_w 0 (mk_world s w) with
+  | Ok x' => s_fate (w_bp x') = FReleased /\ wps (w_wp x') = [] /\ tids (w_wp x') = [5; 6; 7] /\
+             map (fun th => dr7_quiet (h_dr7 (snd th))) (threads (w_wp x')) = [true; true; true]
+  | _ => False
+  end.
+Proof. vm_compute. auto. Qed.
+
+(* the life_check checker accepts what the model produces and flags a wrong exit code *)
+Example life_check_example :
+  life_check (mk_life_case tr_w 10 99 7%Z [Add 20; Continue; Restart; Continue; Continue; Continue; Quit]
+                [7%Z] [(1, Glob 20)] 1) = 0 /\
+  life_check (mk_life_case tr_w 10 99 7%Z [Add 20; Continue; Restart; Continue; Continue; Continue; Quit]
+                [0%Z] [(1, Glob 20)] 1) = 2.
+Proof. vm_compute. auto. Qed.
